@@ -74,13 +74,13 @@ theorem Sound.logCall {env : Env} {w : World} (h : Sound env w) (st sig args) : 
   · exact h
   · exact h.log _
 
-@[simp] theorem calls_subW (raw o) (w : World) : (subW raw o w).calls = w.calls := by
+@[simp] theorem calls_subW (uc raw o) (w : World) : (subW uc raw o w).calls = w.calls := by
   unfold subW; split <;> simp
 
-theorem Sound.subW {env : Env} {w : World} (h : Sound env w) (raw o) : Sound env (subW raw o w) := by
+theorem Sound.subW {env : Env} {w : World} (h : Sound env w) (uc raw o) : Sound env (subW uc raw o w) := by
   unfold Liquer.subW; split
-  · exact h.storeMeta _ _
-  · exact h.storeMeta _ _
+  · exact h.metaIf _ _ _
+  · exact h.metaIf _ _ _
   · exact h
 
 @[simp] theorem calls_admitW (uc key st3) (w : World) : (admitW uc key st3 w).calls = w.calls := by
@@ -111,40 +111,40 @@ theorem subOutcome_ne_unmodelled {st act raw sig xv x o} (h : subOutcome st act 
 
 /-! ### the call -/
 
-theorem call_refines {env : Env} {C : Query → Prop} {T : Str → Prop} {n : Nat} (ih : RefAt env C T n) (w1 : World) (st act raw sig x)
+theorem call_refines {env : Env} {C : Query → Prop} {T : Str → Prop} {n : Nat} (ih : RefAt env C T n) (w1 : World) (st act raw sig x) (uc : Bool)
     (hS : Sound env w1)
     (hsub : ∀ args y qt, cmdSem sig.ns sig.name st.data st.vars args = .subeval y qt → T qt) :
-    Refines env w1 (evalCall env n w1 st act raw sig x).1 (evalCall env n w1 st act raw sig x).2
+    Refines env w1 (evalCall env n w1 st act raw sig x uc).1 (evalCall env n w1 st act raw sig x uc).2
       (fun m => refCall env m st act raw sig x) := by
   unfold evalCall
   split
   · exact ⟨hS, by simp⟩
   · next hpa =>
-    refine ⟨hS.storeMeta _ _, fun _ => ⟨0, [], by simp, ?_, ?_⟩⟩
+    refine ⟨hS.metaIf _ _ _, fun _ => ⟨0, [], by simp, ?_, ?_⟩⟩
     · simp
     · simp [refCall, hpa]
   · next args hpa =>
     split
     · exact ⟨hS.logCall _ _ _, by simp⟩
     · next hc =>
-      refine ⟨(hS.logCall _ _ _).storeMeta _ _, fun _ => ⟨0, callOf st sig args, by simp, ?_, ?_⟩⟩
+      refine ⟨(hS.logCall _ _ _).metaIf _ _ _, fun _ => ⟨0, callOf st sig args, by simp, ?_, ?_⟩⟩
       · simp [refCall, hpa, hc]
       · simp [refCall, hpa, hc]
     · next v hc =>
-      refine ⟨(hS.logCall _ _ _).storeMeta _ _, fun _ => ⟨0, callOf st sig args, by simp, ?_, ?_⟩⟩
+      refine ⟨(hS.logCall _ _ _).metaIf _ _ _, fun _ => ⟨0, callOf st sig args, by simp, ?_, ?_⟩⟩
       · simp [refCall, hpa, hc]
       · simp [refCall, hpa, hc]
     · next v vars hc =>
-      refine ⟨(hS.logCall _ _ _).storeMeta _ _, fun _ => ⟨0, callOf st sig args, by simp, ?_, ?_⟩⟩
+      refine ⟨(hS.logCall _ _ _).metaIf _ _ _, fun _ => ⟨0, callOf st sig args, by simp, ?_, ?_⟩⟩
       · simp [refCall, hpa, hc]
       · simp [refCall, hpa, hc]
     · next v hc =>
-      refine ⟨(hS.logCall _ _ _).storeMeta _ _, fun _ => ⟨0, callOf st sig args, by simp, ?_, ?_⟩⟩
+      refine ⟨(hS.logCall _ _ _).metaIf _ _ _, fun _ => ⟨0, callOf st sig args, by simp, ?_, ?_⟩⟩
       · simp [refCall, hpa, hc]
       · simp [refCall, hpa, hc]
     · next y qtext hc =>
       obtain ⟨hS3, hw⟩ := ih.text (w1.logCall st sig args) qtext true (hS.logCall _ _ _) (hsub _ _ _ hc)
-      refine ⟨hS3.subW _ _, fun hne => ?_⟩
+      refine ⟨hS3.subW _ _ _, fun hne => ?_⟩
       obtain ⟨m, c3', hc1, hc2, hsim⟩ := hw (subOutcome_ne_unmodelled hne)
       refine ⟨m, callOf st sig args ++ c3', ?_, ?_, ?_⟩
       · simp [hc1, List.append_assoc]
@@ -272,7 +272,7 @@ theorem act_step {env : Env} {C : Query → Prop} {T : Str → Prop} {n : Nat} (
     Refines env w (evalAction env (n+1) w st a raw parent extra uc).1 (evalAction env (n+1) w st a raw parent extra uc).2
       (fun m => refAction env m st a raw parent extra) := by
   rw [evalAction_succ]
-  have hS0 := hS.storeMeta raw (s "evaluation")
+  have hS0 := hS.metaIf uc raw (s "evaluation")
   split
   · exact ⟨hS0, by simp⟩
   · next nss hns =>
@@ -281,13 +281,13 @@ theorem act_step {env : Env} {C : Query → Prop} {T : Str → Prop} {n : Nat} (
     · next hl =>
       split
       · next hr =>
-        refine ⟨hS0.storeMeta _ _, fun _ => ⟨1, [], by simp, by simp, ?_⟩⟩
+        refine ⟨hS0.metaIf _ _ _, fun _ => ⟨1, [], by simp, by simp, ?_⟩⟩
         simp only [refAction_succ, hns, hl, hr]; exact Outcome.sim_refl _
       · next sig hr =>
-        obtain ⟨hS1, hw⟩ := ih.params (w.storeMeta raw (s "evaluation")) a.params raw parent hS0 hL
-        rcases hp : evalParams env n (w.storeMeta raw (s "evaluation")) a.params raw parent with ⟨w1, r⟩
+        obtain ⟨hS1, hw⟩ := ih.params (w.metaIf uc raw (s "evaluation")) a.params raw parent hS0 hL
+        rcases hp : evalParams env n (w.metaIf uc raw (s "evaluation")) a.params raw parent with ⟨w1, r⟩
         rw [hp] at hS1 hw
-        simp only [World.calls_storeMeta] at hS1 hw
+        simp only [World.calls_metaIf] at hS1 hw
         cases r with
         | inr o =>
           refine ⟨hS1, fun hne => ?_⟩
@@ -299,7 +299,7 @@ theorem act_step {env : Env} {C : Query → Prop} {T : Str → Prop} {n : Nat} (
           · simp only [refAction_succ, hns, hl, hr, hr1]; exact h2
           · simp only [refAction_succ, hns, hl, hr, hr1]; exact Outcome.sim_refl _
         | inl given =>
-          obtain ⟨hS2, hw2⟩ := call_refines ih w1 st a raw sig (applyExtra extra given) hS1
+          obtain ⟨hS2, hw2⟩ := call_refines ih w1 st a raw sig (applyExtra extra given) uc hS1
             (fun args y qt hc => hSub nss sig hr _ _ _ _ _ hc)
           refine ⟨hS2, fun hne => ?_⟩
           obtain ⟨m, c1', h1, h2, h3⟩ := hw (by simp)
@@ -353,7 +353,7 @@ theorem pre_refines {env : Env} {C : Query → Prop} {T : Str → Prop} {n : Nat
   · exact ⟨hS, fun _ => ⟨0, [], by simp, by simp, Outcome.sim_refl _⟩⟩
   · next p hp =>
     obtain ⟨r, hpr, hpe⟩ := Query.preQ_some hp
-    exact (ih.q (w.storeMeta raw (s "evaluating parent")) p _ .none input uc (hS.storeMeta _ _)
+    exact (ih.q (w.metaIf uc raw (s "evaluating parent")) p _ .none input uc (hS.metaIf _ _ _)
       (hC.pred q p r hCq hpr hpe) huc).of_calls_eq (by simp)
 
 /-- a state that is, up to status, the successful cacheable reference value of `q` (under any spelling and
@@ -511,7 +511,7 @@ theorem q_step {env : Env} {C : Query → Prop} {T : Str → Prop} {n : Nat} (hC
               simp only [refQ_succ_of_pre hres hr1, refAfter, hserr', Bool.false_eq_true, if_false, hrem, refPost,
                 List.append_nil]
             have hcore2 := core_file hcore f (q.encode Gen.escapeTable)
-            refine Refines.intro ((hS1.storeMeta _ _).fileW _ _ _ ?_) (m1+1) c' href (by simpa using h1) h2 hcore2
+            refine Refines.intro ((hS1.metaIf _ _ _).fileW _ _ _ ?_) (m1+1) c' href (by simpa using h1) h2 hcore2
             intro hu hv hc
             have hin := huc hu; subst hin
             exact store_ok (hcanon q hCq).2 (by rw [href]) _ hcore2 hserr hv hc rfl
@@ -568,7 +568,7 @@ theorem q_step {env : Env} {C : Query → Prop} {T : Str → Prop} {n : Nat} (hC
           have href : (refQ env (m1+1) q raw extra input) =
               (.st { st' with data := .none, query := q.encode Gen.escapeTable }, c0) := by
             simp only [refQ_succ_of_pre hres hr1, refAfter, hserr', if_true, List.append_nil]
-          exact Refines.intro (hS1.storeMeta _ _) (m1+1) c' href (by simpa using h1) h2 (core_propagate hcore _)
+          exact Refines.intro (hS1.metaIf _ _ _) (m1+1) c' href (by simpa using h1) h2 (core_propagate hcore _)
 
 /-! ### the refinement theorem -/
 
